@@ -344,6 +344,14 @@ def check_router(ctx, model):
             push_blocks = [b for b, t in pushes if b in v.reach_strict(amr) or b == amr]
             ctx.ob("C15-M4", "%s|assert-is-last" % p, after_hops and len(push_blocks) == 1,
                    "assertion message built after the hop messages: %s; pushes at/after it: %s" % (after_hops, push_blocks), v.where(amr))
+            # ... and with a minimum given, no successful return skips it (e.g. a fast path for single-hop routes)
+            pred = lambda os_: bool(os_) and all(o.kind == "param" and "Option<cosmwasm_std::Uint128>" in v.local_ty(o.a) for o in os_)
+            cut = variant_excluded_edges(v, "option::Option", pred, "Some")
+            oks = [b for b in ok_value_blocks(v)]
+            reach_some = v.reachable(0, cut_edges=cut, cut_blocks=[amr])
+            skipped = [b for b in oks if b in reach_some]
+            ctx.ob("C15-M4", "%s|no-success-without-the-assertion" % p, bool(cut) and not skipped,
+                   "with minimum_receive = Some(..) a successful return is reachable without building the assertion: %s" % (["bb%d" % b for b in skipped] or "no"), v.where(amr))
         from .C12 import check_messages_attached
         check_messages_attached(ctx, model, p, rule="C15-M4")
     q = "terraswap_router::contract::assert_minimum_receive"
@@ -366,6 +374,11 @@ def check_router(ctx, model):
 def run(ctx):
     model = ctx.model()
     check_slippage_clauses(ctx, model)
+    # the reserves the slippage check compares with are net of pending fees for every pool asset, cw20 or native (C01-V1)
+    from .poolvalue import check_fee_deduction_all_kinds, check_fee_lookup_same_asset
+    for crate in ("terraswap_pair", "stableswap_3pool"):
+        check_fee_deduction_all_kinds(ctx, model, crate, "C15-M3")
+        check_fee_lookup_same_asset(ctx, model, crate, "C15-M3")
     for crate in ("terraswap_pair", "stableswap_3pool"):
         check_swap_call(ctx, model, crate)
         check_slippage_tolerance(ctx, model, crate)
